@@ -67,6 +67,10 @@ def run(tier, seed):
     h = runner.load_module(H, 'h_c11_setup')
     h.materialise(root)
     src = open(H).read()
+    # the solver-enumerated parts run on concrete strings: they use the untransformed supp (the equality-only containers
+    # are quadratic on the standard-library modules these programs import)
+    src_e = src.replace('symcont.install()\n', '')
+    assert src_e != src
     qs = []
     for kind in range(3):
         for ln in (1, 2, 3):
@@ -77,15 +81,15 @@ def run(tier, seed):
     for form in range(9):
         for mi in range(3):
             new = 'imports_f%d_m%d' % (form, mi)
-            qs.append(Query(new, src + '\n\n' + copy_fn(src, 'imports', new, 'form == %d and mi == %d' % (form, mi)),
+            qs.append(Query(new, src_e + '\n\n' + copy_fn(src, 'imports', new, 'form == %d and mi == %d' % (form, mi)),
                             new, 'main', 200, per_path=60, meta={'fn': 'imports'}, label='E'))
     n = h.NPROG
     for lo in range(0, n, 8):
         new = 'all_bindings_%03d' % lo
-        qs.append(Query(new, src + '\n\n' + copy_fn(src, 'all_bindings', new, '%d <= case < %d' % (lo, min(n, lo + 8))),
+        qs.append(Query(new, src_e + '\n\n' + copy_fn(src, 'all_bindings', new, '%d <= case < %d' % (lo, min(n, lo + 8))),
                         new, 'main', 200, per_path=60, meta={'fn': 'all_bindings'}, label='E'))
     for fn, pre in (('header', 'kind == 1 and len(name) == 2 and ind == 0'), ('imports', 'form == 7 and mi == 0'), ('all_bindings', 'case == 0')):
-        qs.append(Query(fn + '__twin', src + '\n\n' + copy_fn(src, fn, fn + '__twin', pre, twin=True), fn + '__twin', 'twin', 90,
+        qs.append(Query(fn + '__twin', (src if fn == 'header' else src_e) + '\n\n' + copy_fn(src, fn, fn + '__twin', pre, twin=True), fn + '__twin', 'twin', 90,
                         meta={'fn': fn}))
     runner.run_queries(PID, qs)
     rep.absorb(qs, replay)
